@@ -171,6 +171,10 @@ def tasks(tier, pid):
                 for dest in ('plates', 'A', 'A,P'):
                     for k in ((1, 'umol'), (2, 'mL'), (3, 'U')) if sc in ('c2p', 'c2p,remove') else ((1, 'umol'),):
                         t.append(('used', sc, tf, dest, k[0], k[1]))
+        # unbounded in the number of steps: induction over the step loop (one arbitrary record per step shape)
+        for dest in ('plates', 'A', 'A,P', 'A,B'):
+            for k in ((1, 'umol'), (2, 'mL'), (3, 'U')) if dest in ('plates', 'A,P') else ((1, 'mmol'),):
+                t.append(('used_induction', dest, k[0], k[1]))
         t.append(('used_additive', 'c2p,c2p'))
         t.append(('used_additive', 'c2p,remove'))
         t.append(('used_additive', 'c2c,c2p,p2c'))
@@ -253,6 +257,135 @@ def run_used(pid, sc, tf, dest, k, unit):
     res = clib.dedupe(res)
     if any(r['verdict'] == 'unsupported' for r in res):
         res += native_fallback(name + 'ensures[net-gain]', case, used_replay(k, unit, 'ensures[net-gain]'))
+    return native_refute_unknowns(res, used_replay(k, unit, 'undecided clauses'))
+
+
+# ------------------------------------------------------------------------------------------------ unbounded in the steps
+STEP_SHAPES = ('A->P', 'P->A', 'A->B', 'P:discard', 'A:discard', 'A:only', 'P:only', 'P->P', 'B->A')
+
+
+def generic_step(I, shape):
+    """one arbitrary step record of the given shape (its snapshots are abstract, constrained by BOOK)"""
+    mk = lambda n, kind_, tag: mk_state(I, n, kind_, tag)      # noqa: E731
+    kind_of = {'A': 'container', 'B': 'container', 'P': 'plate'}
+    if '->' in shape:
+        f, t = shape.split('->')
+        if f == t:
+            pre, post = mk(t, kind_of[t], t + 'pre'), mk(t, kind_of[t], t + 'post')
+            return mk_step(I, None, 'g', (pre, post), (pre, post))
+        return mk_step(I, None, 'g', (mk(t, kind_of[t], t + 'pre'), mk(t, kind_of[t], t + 'post')),
+                       (mk(f, kind_of[f], f + 'pre'), mk(f, kind_of[f], f + 'post')))
+    t, what = shape.split(':')
+    return mk_step(I, None, 'g', (mk(t, kind_of[t], t + 'pre'), mk(t, kind_of[t], t + 'post')), None, trash=(what == 'discard'))
+
+
+def induction_loop(I, contribution, total_name='TOTAL'):
+    """Handler for `for step in <steps of the timeframe>` over a step list of ARBITRARY length.  The loop is cut by the
+    invariant  acc == PS(k)  where PS(0) = 0 and PS(k+1) = PS(k) + contribution(step k): init and step are obligations
+    (the step for one arbitrary record per shape, every variable the body assigns havocked), and after the loop
+    acc == PS(n) =: TOTAL.  `contribution(step)` is the SPECIFIED contribution of one step (from the property)."""
+    from pyvc import loops as L
+    PS = z3.Function('PS!' + total_name, IS, RS)
+    TOTAL = z3.Real(total_name)
+
+    def handler(interp, st, env, lst, sl):
+        carried = sorted(n for n in L.assigned_names(st) if env.has(n) and n != getattr(st.target, 'id', None))
+        nums = [n for n in carried if is_num(env.lookup(n)) and not isinstance(env.lookup(n), bool)]
+        if len(nums) != 1 or len(carried) != 1:
+            raise Unsupported(f"step loop carrying {carried} (the induction handles one numeric accumulator)")
+        acc = nums[0]
+        name = f"inv[step-loop@{interp.call_stack[-1] if interp.call_stack else '?'}]"
+        interp.assume(PS(0) == 0)
+        interp.oblige(name + '.init', real(env.lookup(acc)) == PS(0), 'property', lineno=st.lineno)
+        shapes = interp.__dict__['_step_shapes']
+        choice = interp.choose(len(shapes) + 1, f"loop@{st.lineno} exit / iteration on a step of each shape")
+        L.havoc(interp, st, env)
+        if choice > 0:
+            k = fresh('k', IS)
+            interp.assume(k >= 0)
+            interp.assume(real(env.lookup(acc)) == PS(k))
+            g = generic_step(interp, shapes[choice - 1])
+            interp.__dict__['_generic_step'] = g
+            instantiate_facts(interp, interp.__dict__['_queried'])
+            interp.assume(PS(k + 1) == PS(k) + contribution(interp, g))
+            interp.assign(st.target, g, env)
+            try:
+                interp.exec_block(st.body, env)
+            except ContinueEx:
+                pass
+            except BreakEx:
+                interp.oblige(name + '.no-break', False, 'property', lineno=st.lineno)
+                raise PathEnd()
+            interp.oblige(name + '.step', real(env.lookup(acc)) == PS(k + 1), 'property', lineno=st.lineno)
+            raise PathEnd()
+        interp.assume(real(env.lookup(acc)) == TOTAL)
+        interp.exec_block(st.orelse, env)
+    return handler, TOTAL
+
+
+def run_used_induction(pid, dest, k, unit):
+    """get_substance_used over a step list of arbitrary length: induction step per step shape + the code after the loop
+    against TOTAL (= the sum of the specified contributions, which telescopes to the net gain: lemma[telescoping])."""
+    from pyvc.symcoll import SymList
+    res = []
+    case = f"any-number-of-steps|{dest}|{spec_kind(k)}|{unit}"
+    name = f'{pid}/Recipe.get_substance_used/'
+    dnames = {'plates': ['P'], 'A': ['A'], 'A,P': ['A', 'P'], 'A,B': ['A', 'B']}[dest]
+
+    def body(I):
+        clib.assume_world(I)
+        results = {'A': mk_state(I, 'A', 'container', 'Aend'), 'B': mk_state(I, 'B', 'container', 'Bend'),
+                   'P': mk_state(I, 'P', 'plate', 'Pend')}
+        steps = SymList(tag='steps')
+        I.assume(steps.n >= 0)
+        a, b = z3.Int('stage_from'), z3.Int('stage_to')
+        r = mk_recipe(I, [], results, {'all': SliceV(None, None, None), 'stage': SliceV(a, b, None)})
+        r.fields['steps'] = steps
+        steps.owner = r
+        s = z3.Const('s', Sub)
+        I.assume(kind(s) == k)
+        I.assume(z3.And(mw(s) > 0, dens(s) > 0, sa(s) > 0))
+        I.__dict__['_queried'] = s
+        I.__dict__['_step_shapes'] = STEP_SHAPES
+
+        def contribution(interp, g):
+            c = z3.RealVal(0)
+            for n in dnames:
+                for pre, post in touched(g, n):
+                    c = c + amount(post, s) - amount(pre, s)
+            return c + g.trash_amt(s)
+        handler, TOTAL = induction_loop(I, contribution)
+        I.__dict__.setdefault('list_loop_handlers', {})['list:steps'] = handler
+        dests = 'plates' if dest == 'plates' else [results[n] for n in dnames]
+        I.writes.clear()
+        tf = 'all' if I.choose(2, 'whole recipe / a named stage') == 0 else 'stage'
+        out = vc.call(I, 'Recipe.get_substance_used', [r, SubV(s), tf, unit, dests])
+        I.oblige('frame', len(I.writes) == 0, 'property', note=f"a tracker wrote {[(str(w[0]), w[1]) for w in I.writes][:3]}")
+        S = spec.SubSpec(k, mw(s), dens(s), sa(s))
+        from_unit = 'U' if k == 3 else I.cfg.data['moles_storage_unit']
+        want = spec.convert_spec(S, TOTAL, from_unit, unit)
+        prec = I.cfg.data['precisions'].get(unit, I.cfg.data['precisions']['default'])
+        if out.kind == 'return':
+            I.oblige('raises[net-decrease]', TOTAL >= 0, 'property', note='a net decrease must raise ValueError')
+            I.oblige('ensures[net-gain]', real(out.value) == B.rnd(z3.IntVal(prec), want), 'property',
+                     note='reported amount = sum over the steps of the timeframe of (gain of the destinations + discarded), converted and rounded')
+        elif out.exc.cls == 'ValueError' and not out.exc.implicit:
+            I.oblige('raises[net-decrease]', TOTAL < 0, 'property', note=f'ValueError at line {out.exc.lineno} without a net decrease')
+        else:
+            I.oblige(f'safe[{out.exc.cls}]', False, 'property', note=f'{out.exc.cls} at line {out.exc.lineno}')
+        return out
+    n_step = 0
+    for I, out in vc.explore(body, contracts=clib.contracts(), max_paths=400):
+        if isinstance(out, vc.Outcome) and out.kind == 'unsupported':
+            res.append(vc.unsupported_result(name + 'unsupported', case, out.note))
+            continue
+        rs = vc.discharge(I, name, case, 15000, ladder=qf_ladder, inputs={'placeholder': z3.RealVal(0)},
+                          replay_fn=lambda mv, ob: used_replay(k, unit, ob.name))
+        n_step += sum(1 for x in rs if x['name'].endswith('.step'))
+        res += rs
+    res = clib.dedupe(res)
+    if not any(x['verdict'] == 'unsupported' for x in res) and n_step == 0:
+        res.append(vc.unsupported_result(name + 'unsupported', case, 'the step loop was never reached (no induction step generated)'))
     return native_refute_unknowns(res, used_replay(k, unit, 'undecided clauses'))
 
 
